@@ -80,7 +80,7 @@ Ltac step_cases H :=
 Ltac proj_simpl :=
   cbn [d_cancel d_stats d_running d_script d_sig d_paused d_dbg d_max_fail
        set_stats set_running set_script set_cancel set_sig set_paused
-       r_hs r_resp no_resp fst snd] in *.
+       r_hs r_resp r_unit no_resp mk_resp fst snd] in *.
 
 Ltac step_inv H :=
   step_cases H;
@@ -740,3 +740,34 @@ Definition ex_history : list devent :=
    Started 3; RetryStarted 2 2 2;
    SigShutdown Term; ReportCancel; SigShutdown SInterrupt].
 
+
+(* ------------------------------------------------------------------ the per-unit repeat of the cancel request *)
+
+(* handle_event itself addresses a single unit exactly when that unit reports a failed attempt
+   (with retries left) while the run is being cancelled; what it sends is OtherCancel *)
+Lemma step_unicast_iff d e s' evs rsp t :
+  dstep_live d e = (s', evs, rsp) ->
+  (r_unit rsp = Some t <->
+   exists a, e = AttemptFailedWillRetry t a /\ d_cancel d <> None /\ s' <> Panicked).
+Proof.
+  intros H. destruct e; step_inv H; kill_some; proj_simpl;
+    (split; [intros Hx; try discriminate | intros (a' & Ha & Hcc & Hpp); try discriminate; try congruence]).
+  all: try (inversion Hx; subst; eexists; repeat split; eauto; discriminate).
+  all: try (inversion Ha; subst; reflexivity).
+Qed.
+
+Lemma dstep_unicast_iff d e s' evs rsp t :
+  dstep (Live d) e = (s', evs, rsp) ->
+  (r_unit rsp = Some t <->
+   exists a, e = AttemptFailedWillRetry t a /\ d_cancel d <> None /\ s' <> Panicked).
+Proof. apply step_unicast_iff. Qed.
+
+(* the step that begins cancellation broadcasts a cancel request *)
+Lemma step_begins_cancel_broadcasts d e d' evs rsp :
+  dstep_live d e = (Live d', evs, rsp) -> d_cancel d = None -> d_cancel d' <> None ->
+  cancel_broadcast (broadcast_of (r_resp rsp)) = true.
+Proof.
+  intros H Hnone Hsome. destruct e; step_inv H; kill_some; proj_simpl; try congruence;
+    cbn [broadcast_of cancel_broadcast]; try reflexivity.
+  all: try (match goal with e : shutdown_event |- _ => destruct e end; reflexivity).
+Qed.
